@@ -63,6 +63,21 @@ def make_classes(m):
             # yield point: the subroutine stays alive, blocked in its wait instruction
             yield WAIT
 
+    import importlib
+    InstrLogger = importlib.import_module("netqasm.logging.output").InstrLogger
+
+    class HarnessInstrLogger(InstrLogger):
+        """the real instruction logger; only the hooks the base class leaves to back ends are filled in"""
+
+        @classmethod
+        def _get_qubit_groups(cls):
+            return None
+
+        def _get_node_name(self):
+            return self._executor._name
+
+    Ex.instr_logger_class = HarnessInstrLogger
+
     class Ctrl(QNodeController):
         @classmethod
         def _get_executor_class(cls, flavour=None):
@@ -94,11 +109,19 @@ def info_of(r):
 
 
 class EprWorld:
-    def __init__(self, m, classes, node_id, pm="id"):
+    def __init__(self, m, classes, node_id, pm="id", instr_log_dir=None):
         self.m = m
         Stack, Ex, Ctrl = classes
         m["shared_memory"].SharedMemoryManager.reset_memories()
-        self.ctrl = Ctrl("Alice")
+        # instruction logging is an optional collaborator of the executor: with instr_log_dir the
+        # controller attaches an InstrLogger that is called after every instruction with the live
+        # instruction object and reads the executor's arrays / unit modules.  (Loggers are cached per
+        # node name process-wide and registered in a module-level list: start clean for every run.)
+        Ex._INSTR_LOGGERS.clear()
+        import netqasm.logging.output as nlo
+        nlo.reset_struct_loggers()
+        self.ctrl = Ctrl("Alice", instr_log_dir=instr_log_dir)
+        assert (self.ctrl._executor._instr_logger is not None) == (instr_log_dir is not None)
         self.ctrl.network_stack = Stack(pm)
         self.ex = self.ctrl._executor
         self.ex._nid = node_id
